@@ -31,6 +31,9 @@ def load_mesh_module():
     M = importlib.import_module('src.mesh')
     M = importlib.reload(M) if False else M
     M.print = lambda *a, **k: None
+    from vf import models as _models
+    from checks import c15 as _c15
+    M.np = _models.NpProxy(dict(isclose=_c15.isclose_np, allclose=_c15.allclose_np, zeros=_models.zeros_model))
     return M
 
 
